@@ -1,13 +1,22 @@
 #!/bin/bash
-# usage: tools/try_mut.sh <patch.diff> <ID> [<ID> ...]   -- apply a seeded defect to /repo, run the quick checks, revert
-P=$1; shift
-cd /repo || exit 2
-if ! git diff --quiet; then echo "repo dirty"; exit 2; fi
-git apply "$P" || { echo "PATCH DOES NOT APPLY"; exit 3; }
+# usage: tools/try_mut.sh <patch.diff> <ID> [<ID> ...]
+# Applies a seeded defect to a scratch worktree of /repo (HEAD), runs the checks against that tree, removes the worktree.
+# (INPLACE=1: apply to /repo itself, run, and undo straight afterwards.)
+P=$(readlink -f "$1"); shift
+if [ -n "$INPLACE" ]; then
+  cd /repo || exit 2
+  git diff --quiet || { echo "repo dirty"; exit 2; }
+  git apply "$P" || { echo "PATCH DOES NOT APPLY"; exit 3; }
+  WT=/repo
+else
+  WT=/tmp/wt/mut_$$
+  git -C /repo worktree add --detach $WT HEAD -q || exit 2
+  (cd $WT && git apply "$P") || { echo "PATCH DOES NOT APPLY"; git -C /repo worktree remove --force $WT; exit 3; }
+fi
 cd /verif
 for id in "$@"; do
-  out=$(VERIF_REPLAY_DIR=/tmp/wt/replays ./check $id --tier ${TIER:-quick} 2>&1); rc=$?
+  out=$(PYTHONPATH=$WT VERIF_REPO=$WT VERIF_JOBS=${JOBS:-16} VERIF_REPLAY_DIR=/tmp/wt/replays VERIF_EVIDENCE_DIR=/tmp/wt/evidence ./check $id --tier ${TIER:-quick} 2>&1); rc=$?
   echo "== $id rc=$rc :: $(echo "$out" | grep -E "^\[$id\] tier" | head -1)"
   echo "$out" | grep -E "violation key|HARNESS" | head -4
 done
-git -C /repo checkout -- . ; git -C /repo status --short | grep -v test.xlsx
+if [ -n "$INPLACE" ]; then git -C /repo checkout -- . ; else git -C /repo worktree remove --force $WT; fi
